@@ -6,6 +6,7 @@ package subjectaccessreview
 
 import (
 	"encoding/json"
+	"reflect"
 	"sort"
 
 	"k8s.io/apimachinery/pkg/util/cache"
@@ -17,26 +18,50 @@ func VerifCacheHosts(z authorizer.Authorizer) []string {
 	a := z.(*MultiClusterSubjectAccessReviewAuthorizer)
 	out := []string{}
 	a.caches.Range(func(k, _ interface{}) bool {
-		out = append(out, k.(string))
+		out = append(out, verifKeyHost(k))
 		return true
 	})
 	sort.Strings(out)
-	return out
+	uniq := out[:0]
+	for i, h := range out {
+		if i == 0 || h != out[i-1] {
+			uniq = append(uniq, h)
+		}
+	}
+	return uniq
+}
+
+// verifKeyHost: the host of a caches key, whether the key is the host itself
+// or a struct with a host field (the accessors must compile against both).
+func verifKeyHost(k interface{}) string {
+	if s, ok := k.(string); ok {
+		return s
+	}
+	v := reflect.ValueOf(k)
+	if v.Kind() == reflect.Struct {
+		if f := v.FieldByName("host"); f.IsValid() && f.Kind() == reflect.String {
+			return f.String()
+		}
+	}
+	return "?"
 }
 
 // VerifEvict removes the entry of these attributes from one host's LRU cache
 // (what LRU eviction may do at any time).
 func VerifEvict(z authorizer.Authorizer, host string, attr authorizer.Attributes) bool {
 	a := z.(*MultiClusterSubjectAccessReviewAuthorizer)
-	c, ok := a.caches.Load(host)
-	if !ok {
-		return false
-	}
 	r := a.subjectAccessReviewFromAttributes(attr)
 	key, err := json.Marshal(r.Spec)
 	if err != nil {
 		return false
 	}
-	c.(*cache.LRUExpireCache).Remove(string(key))
-	return true
+	found := false
+	a.caches.Range(func(k, c interface{}) bool {
+		if verifKeyHost(k) == host {
+			c.(*cache.LRUExpireCache).Remove(string(key))
+			found = true
+		}
+		return true
+	})
+	return found
 }
